@@ -405,6 +405,9 @@ func (c PGCase) comparePGRewrite(vs *hx.Vs, cl classSet, r *pgRun, toDB, toClien
 				cl.add("DataRow:changed+unchanged")
 			}
 		default:
+			if m.label == "ReadyForQuery" {
+				clOIDs = nil // a description does not outlive its cycle
+			}
 			if !bytes.Equal(g, m.data) {
 				d := firstDiff(g, m.data)
 				vs.Add("relay-differs:db->client:"+m.label, "message %d (%s) differs at offset %d: received %s, the database sent %s", i, m.label, d, around(g, d), around(m.data, d))
